@@ -75,7 +75,7 @@ fn header_invalid(frame: &[u8]) -> bool {
     if frame.len() != want {
         return true;
     }
-    if df == 17 && modes_checksum(frame, want * 8).map(|c| c != 0).unwrap_or(true) {
+    if df == 17 && spec_syndrome(frame) != 0 {
         return true;
     }
     !(KNOWN_DF.contains(&df) || df >= 24)
